@@ -52,6 +52,8 @@ type c02Lists struct {
 	OvOps    map[string][]c02Op
 	Moves    []string // new paths staged as whole files, Save() order
 	MvData   map[string][]byte
+	Steps    [][2]string // the bowl calls of the patch phase: ("T", new path, old path) / ("W", new path)
+	StepsT   []bool
 }
 
 func decodeOverlay(data []byte) ([]c02Op, error) {
@@ -85,6 +87,28 @@ func decodeOverlay(data []byte) ([]c02Op, error) {
 	}
 }
 
+// recBowl records the calls the patcher makes on the bowl during the patch phase
+type recBowl struct {
+	bowl.Bowl
+	steps []c02Step
+}
+
+type c02Step struct {
+	Transpose bool
+	Source    int64
+	Target    int64
+}
+
+func (r *recBowl) GetWriter(index int64) (bowl.EntryWriter, error) {
+	r.steps = append(r.steps, c02Step{Source: index})
+	return r.Bowl.GetWriter(index)
+}
+
+func (r *recBowl) Transpose(t bowl.Transposition) error {
+	r.steps = append(r.steps, c02Step{Transpose: true, Source: t.SourceIndex, Target: t.TargetIndex})
+	return r.Bowl.Transpose(t)
+}
+
 // c02Apply is lib.ApplyInPlace plus the observation points of the property: before Commit the
 // work lists are read through Save() and the stage files are decoded; beforeCommit runs then.
 func c02Apply(patch []byte, dir, stageDir string, lists *c02Lists, beforeCommit func() error) error {
@@ -103,10 +127,19 @@ func c02Apply(patch []byte, dir, stageDir string, lists *c02Lists, beforeCommit 
 		return err
 	}
 	defer b.Close()
-	if err := p.Resume(nil, tp, b); err != nil {
+	rb := &recBowl{Bowl: b}
+	if err := p.Resume(nil, tp, rb); err != nil {
 		return err
 	}
 	if lists != nil {
+		for _, st := range rb.steps {
+			if st.Transpose {
+				lists.Steps = append(lists.Steps, [2]string{sc.Files[st.Source].Path, tc.Files[st.Target].Path})
+			} else {
+				lists.Steps = append(lists.Steps, [2]string{sc.Files[st.Source].Path, ""})
+			}
+			lists.StepsT = append(lists.StepsT, st.Transpose)
+		}
 		cp, err := b.Save()
 		if err != nil {
 			return err
@@ -883,6 +916,24 @@ func c02CoqCase(old, nw *lib.Build, ord *c02Order, l *c02Lists, res *c02Result) 
 		strings.Join(tr, ";"), strings.Join(ov, ";"), strings.Join(mv, ";"), cls, final)
 }
 
+// c02ListsCase: the old container's files, the bowl calls, and the work lists Save() reported
+func c02ListsCase(ord *c02Order, l *c02Lists) string {
+	n := &c02Names{ids: map[string]int{}}
+	var steps, tr []string
+	for i, st := range l.Steps {
+		if l.StepsT[i] {
+			steps = append(steps, fmt.Sprintf("LT %s %s", n.path(st[0]), n.path(st[1])))
+		} else {
+			steps = append(steps, fmt.Sprintf("LW %s", n.path(st[0])))
+		}
+	}
+	for _, t := range l.Transpos {
+		tr = append(tr, fmt.Sprintf("(%s,%s)", n.path(t[0]), n.path(t[1])))
+	}
+	return fmt.Sprintf("($ID%%N, %s, [%s], ([%s], %s, %s))", pathList(n, ord.ofiles), strings.Join(steps, ";"),
+		strings.Join(tr, ";"), pathList(n, l.Overlays), pathList(n, l.Moves))
+}
+
 type c02Spec struct {
 	class    string
 	old, nw  *lib.Build
@@ -1092,6 +1143,11 @@ func runC02Case(c *Ctx, idx int, sp c02Spec) (out []*lib.Case, err error) {
 		cs.Finding = finding
 	}
 	cs.Oracle = strings.Join(oracle, " | ")
+	listsCase := &lib.Case{Class: "lists/" + strings.SplitN(sp.class, "/", 2)[0], Group: "lists", Nontrivial: cs.Nontrivial,
+		Input: map[string]interface{}{"subseed": idx, "of": sp.class, "steps": lists.Steps},
+		Obs:   map[string]interface{}{"transpositions": lists.Transpos, "overlays": lists.Overlays, "moves": lists.Moves},
+		Coq:   c02ListsCase(ord, lists)}
+	defer func() { out = append(out, listsCase) }()
 	if sp.corr && rleSize(allData(sp.old, sp.nw)...) < 4000 {
 		cs.Group = "commit"
 		cs.Coq = c02CoqCase(sp.old, sp.nw, ord, lists, distinct[0])
